@@ -6,9 +6,7 @@ package linkedhashmap
 
 import (
 	"bytes"
-	"cmp"
 	"encoding/json"
-	"slices"
 
 	"github.com/emirpasic/gods/v2/containers"
 )
@@ -70,19 +68,33 @@ func (m *Map[K, V]) FromJSON(data []byte) error {
 		return err
 	}
 
-	index := make(map[K]int)
+	// Walk the top-level object to recover the order in which the keys appear
+	// (searching the input for the text of each key is fooled by values and
+	// longer keys that contain that text).
 	var keys []K
-	for key := range elements {
-		keys = append(keys, key)
-		esc, _ := json.Marshal(key)
-		index[key] = bytes.Index(data, esc)
+	decoder := json.NewDecoder(bytes.NewReader(data))
+	if token, _ := decoder.Token(); token == json.Delim('{') {
+		for decoder.More() {
+			token, err := decoder.Token()
+			if err != nil {
+				return err
+			}
+			name, _ := token.(string)
+			var value json.RawMessage
+			if err := decoder.Decode(&value); err != nil {
+				return err
+			}
+			// convert the key text to K exactly as encoding/json does
+			quoted, _ := json.Marshal(name)
+			var single map[K]json.RawMessage
+			if err := json.Unmarshal([]byte("{"+string(quoted)+":null}"), &single); err != nil {
+				return err
+			}
+			for key := range single {
+				keys = append(keys, key)
+			}
+		}
 	}
-
-	byIndex := func(key1, key2 K) int {
-		return cmp.Compare(index[key1], index[key2])
-	}
-
-	slices.SortFunc(keys, byIndex)
 
 	m.Clear()
 
